@@ -11,7 +11,7 @@ import (
 )
 
 var c07Floor = []string{"cte.1", "cte.chain2", "cte.chain3", "cte.twice.join", "cte.twice.union", "cte.twice.insub", "cte.selector", "derived", "derived.where",
-	"subq.nested", "subq.root", "subq.in", "subq.agg", "exists", "exists.outer", "subq.root-correlated", "derived.join", "subq.with", "agg.stages", "exists.dual", "inner.agg", "inner.order", "inner.filter", "cte.mixedcase", "exists.outer.marker", "exists.sparse", "subq.in.null-left", "exists.shadow", "exists.outer.marker-is", "cte.named-like-its-table", "cte.nested-with", "cte.nested-with.twice", "cte.union-chain3", "subq.in.qualified-item", "subq.notin", "exists.naming.table-qualified", "exists.naming.alias", "exists.naming.alias-unqualified", "cte.chain-named-like-tables", "exists.shadow.aliased", "exists.outer.alias-path", "exists.outer.table-qualified"}
+	"subq.nested", "subq.root", "subq.in", "subq.agg", "exists", "exists.outer", "subq.root-correlated", "derived.join", "subq.with", "agg.stages", "exists.dual", "inner.agg", "inner.order", "inner.filter", "cte.mixedcase", "exists.outer.marker", "exists.sparse", "subq.in.null-left", "exists.shadow", "exists.outer.marker-is", "cte.named-like-its-table", "cte.nested-with", "cte.nested-with.twice", "cte.union-chain3", "subq.in.qualified-item", "subq.notin", "exists.naming.table-qualified", "exists.naming.alias", "exists.naming.alias-unqualified", "cte.chain-named-like-tables", "exists.shadow.aliased", "exists.outer.alias-path", "exists.outer.table-qualified", "derived.order-ties", "exists.shadow.ragged"}
 
 func init() {
 	fw.Register(&fw.Prop{
@@ -412,6 +412,18 @@ func c07Run(c *fw.Case) {
 		}
 		var fs []string
 		outerTail := c07Simple(c, "@FROM@", cur, "q", false, &fs, "outer")
+		if kind == "derived" && c.Chance(0.3) {
+			// both stages sort; the outer key ties, so the inner order shows
+			// through it exactly as it does over the materialised rows
+			inner = "SELECT rid, s1, n1 FROM t1 ORDER BY n1 " + gen.Pick(c.R, []string{"DESC", "ASC"}) + ", rid DESC"
+			rows, ok = stage(fresh(), inner)
+			if !ok {
+				return
+			}
+			staged["dt"] = val.Copy(rows)
+			outerTail = "SELECT q.rid, q.s1 FROM @FROM@ q ORDER BY q.s1" + gen.Pick(c.R, []string{"", " DESC"})
+			feats = append(feats, "derived.order-ties")
+		}
 		if kind == "derived.where" && !strings.Contains(outerTail, "WHERE") {
 			sc := cur.ColsOf(gen.KNum, gen.KStr)
 			if len(sc) == 0 {
@@ -883,10 +895,17 @@ func c07Run(c *fw.Case) {
 		if c.Chance(0.3) && !containsStr(feats, "exists.sparse") {
 			// a column of the nested elements named like a column of the outer
 			// row: inside p the name means the element's
+			ragged := c.Chance(0.5)
 			for _, row := range t.Rows {
 				for _, el := range row["arr"].([]any) {
+					if ragged && c.Chance(0.4) {
+						continue // this element has no such column: the name means the outer row's here
+					}
 					el.(map[string]any)["s1"] = gen.Pick(c.R, []any{"p", "q", "zz"})
 				}
+			}
+			if ragged {
+				feats = append(feats, "exists.shadow.ragged")
 			}
 			doc = DocOf(t, u)
 			shadow := gen.Cmp{L: gen.Operand{Col: "s1", IsCol: true}, R: gen.Operand{Lit: gen.Pick(c.R, []any{"p", "q"})}, Op: gen.Pick(c.R, []string{"=", "!="})}
@@ -940,7 +959,7 @@ func c07Run(c *fw.Case) {
 				feats = append(feats, "exists.naming.alias-unqualified")
 			}
 		}
-		if containsStr(feats, "exists.shadow") && c.Chance(0.4) {
+		if containsStr(feats, "exists.shadow") && (c.Chance(0.4) || containsStr(feats, "exists.shadow.ragged") && c.Chance(0.6)) {
 			// under an alias of the nested table the bare name still means the element's column
 			fromArr = "arr a"
 			feats = append(feats, "exists.shadow.aliased")
